@@ -428,12 +428,16 @@ def gen_exact(rng):
     for nd in sc["nodes"]:
         if nd.get("kind") == "sched":
             s = nd["sched"]
+            # shift dates that are exact in binary (multiples of 0.5 / 0.25) keep the schedule generator's float
+            # sums exact, so that the rest of exact mode can be judged; other dates run into open finding F10
+            dyadic = rng.random() < 0.7
+            q = (5 if sc["dec"] == 1 else 25) if dyadic else 1
             t, ends = 0, []
             for e in s["ends"]:
-                t += rng.randint(3, 40)
+                t += rng.randint(1, 8) * q if dyadic else rng.randint(3, 40)
                 ends.append(t)
             s["ends"] = ends
-            s["off"] = rng.choice([0, 0, 3, 7])
+            s["off"] = rng.choice([0, 0, 1, 2]) * q if dyadic else rng.choice([0, 0, 3, 7])
     return sc
 
 
